@@ -79,6 +79,10 @@ Definition view_ok (v : view) : Prop :=
   | VHost h => addr_ok (h_addr h)
   | VMac e => bytes_ok (m_mac e)
   | VNotif n => addr_ok (nf_addr n)
+  | VDnsEntry _ => True
+  | VDnsName d => addr_ok (dn_addr d)
+  | VIpName n => addr_ok (in_addr n)
+  | VLease l => addr_ok (ls_addr l) /\ bytes_ok (ls_id l)
   end.
 
 Ltac ok_ops :=
@@ -93,6 +97,24 @@ Ltac ok_ops :=
 Lemma oaddr_opt_ok n a : op_ok (oaddr_opt n a).
 Proof. destruct a; cbn; exact I || reflexivity. Qed.
 
+Lemma lldp_ops_ok p : bytes_ok p -> forall f pos, Forall op_ok (lldp_ops f p pos).
+Proof.
+  intros B f. induction f as [|f IH]; intros pos; cbn [lldp_ops]; [constructor|].
+  destruct (Nat.leb (plen p) (pos + 2)); [constructor|].
+  destruct ((bt p pos / 2 =? 0) && _); [constructor|].
+  destruct (Nat.leb _ (plen p)); [|constructor].
+  destruct (bt p pos / 2 =? 0); [constructor|].
+  apply Forall_app; split; [|apply IH].
+  destruct ((bt p pos / 2 =? 5) || (bt p pos / 2 =? 6)); [repeat constructor|].
+  destruct (bt p pos / 2 =? 7); repeat constructor; cbn [op_ok]; apply sub_ok; exact B.
+Qed.
+
+Lemma redirect_addrs_ok p : bytes_ok p -> Forall ipv_ok (redirect_addrs p).
+Proof.
+  intros B. unfold redirect_addrs. apply Forall_forall. intros v Hv. apply in_map_iff in Hv.
+  destruct Hv as (i & <- & _). cbn [ipv_ok]. apply sub_ok. exact B.
+Qed.
+
 Lemma view_ops_ok k p : bytes_ok p -> Forall op_ok (flatten (view_ops k p)).
 Proof.
   intros B. unfold view_ops. rewrite flatten_ops.
@@ -101,6 +123,7 @@ Proof.
     cbn [op_ok oint ointN oaddr ouint ohex8 ohex16 omac obool ostr oba ipv_ok];
     try reflexivity; try exact I;
     try (apply sub_ok; exact B); try (apply lla_ok; exact B); try (apply bytes_ok_skipn; exact B);
+    try exact B; try (apply redirect_addrs_ok; exact B); try (apply lldp_ops_ok; exact B);
     try (match goal with
          | |- bt _ ?i < _ => pose proof (Hb i B); lia
          | |- w16 _ ?i < _ => pose proof (Hw i B); lia
@@ -127,7 +150,7 @@ Qed.
 
 Lemma ops_of_ok v : view_ok v -> Forall op_ok (flatten (ops_of v)).
 Proof.
-  destruct v as [k p|a|n|h|e|n]; cbn [view_ok ops_of].
+  destruct v as [k p|a|n|h|e|n|d|d|n|ls]; cbn [view_ok ops_of].
   - intros [_ B]. apply view_ops_ok. exact B.
   - apply addr_ops_ok.
   - intros _. apply name_ops_ok.
@@ -145,6 +168,17 @@ Proof.
     + destruct (nonempty (nf_manuf n)); cbn; repeat constructor.
     + apply names_ops_ok.
     + cbn. repeat constructor.
+  - intros _. unfold dnsentry_ops. rewrite flatten_ops. repeat constructor.
+  - intros HA. unfold dnsname_ops. rewrite flatten_cons, flatten_vop_struct.
+    apply Forall_app; split; [apply addr_ops_ok; exact HA|]. cbn. repeat constructor.
+  - intros HA. unfold ipname_ops. rewrite !flatten_cons, !flatten_vop_struct. change (flatten []) with (@nil op).
+    apply Forall_app; split; [apply addr_ops_ok; exact HA|]. rewrite app_nil_r. apply name_ops_ok.
+  - intros [HA HI]. unfold lease_ops.
+    do 3 rewrite flatten_cons. rewrite flatten_vop_struct. cbn [flatten_vop app].
+    constructor; [exact HI|]. constructor; [exact I|].
+    apply Forall_app; split; [apply addr_ops_ok; exact HA|].
+    cbn [flatten flatten_vop map concat app].
+    repeat (constructor; [first [exact I|apply oaddr_opt_ok]|]). constructor.
 Qed.
 
 (* ---------------------------------------------------------------- (1) whenever the text fits *)
@@ -310,13 +344,25 @@ Ltac valid_facts V :=
   unfold view_valid in V; repeat (apply andb_prop in V; let V2 := fresh "V" in destruct V as [V V2]);
   repeat match goal with H : Nat.leb _ _ = true |- _ => apply Nat.leb_le in H end.
 
+Lemma lldp_ops_small p : forall f pos, Forall op_small (lldp_ops f p pos).
+Proof.
+  intros f. induction f as [|f IH]; intros pos; cbn [lldp_ops]; [constructor|].
+  destruct (Nat.leb (plen p) (pos + 2)); [constructor|].
+  destruct ((bt p pos / 2 =? 0) && _); [constructor|].
+  destruct (Nat.leb _ (plen p)); [|constructor].
+  destruct (bt p pos / 2 =? 0); [constructor|].
+  apply Forall_app; split; [|apply IH].
+  destruct ((bt p pos / 2 =? 5) || (bt p pos / 2 =? 6)); [repeat constructor|].
+  destruct (bt p pos / 2 =? 7); repeat constructor.
+Qed.
+
 Lemma view_ops_small k p :
   view_valid k p = true -> bytes_ok p -> frame_len_ok p -> Forall op_small (flatten (view_ops k p)).
 Proof.
   intros V B FL. unfold view_ops. rewrite flatten_ops. unfold frame_len_ok in FL.
   pose proof (bt_ok p) as Hb. pose proof (w16_ok p) as Hw.
   destruct k; valid_facts V; small_ops;
-    cbn [op_small oint ointN oaddr ouint ohex8 ohex16 omac obool ostr oba]; try exact I;
+    cbn [op_small oint ointN oaddr ouint ohex8 ohex16 omac obool ostr oba]; try exact I; try apply lldp_ops_small;
     try (split; [apply sub_ok; exact B|]; try (left; apply sub_len; lia); try (right; apply sub_len; lia));
     try match goal with
         | |- (_ <= Z.of_N (bt _ ?i / _) < _)%Z => pose proof (Hb i B); lia
@@ -333,9 +379,10 @@ Proof.
         end.
 Qed.
 
-(* the two views that end in a ByteArray over the rest of the frame *)
+(* views whose text is bounded; the others end in an array over the rest of the frame (ICMPEcho, IEEE1905,
+   RRCP, ICMP4Redirect) or walk TLVs (LLDP) *)
 Definition bounded_kind (k : vkind) : bool :=
-  match k with KICMPEcho | KIEEE1905 => false | _ => true end.
+  match k with KICMPEcho | KIEEE1905 | KRRCP | KRedirect | KLLDP => false | _ => true end.
 
 Lemma view_total_bound k p : bounded_kind k = true -> (total_bound (flatten (view_ops k p)) <= 400)%nat.
 Proof.
@@ -346,11 +393,17 @@ Proof.
   - (* DHCP4: the 4-byte xid is printed by ByteArray *)
     assert (L : (List.length (vsub p 4 4) <= 4)%nat) by (unfold vsub; apply firstn_le_length).
     cbn [total_bound op_bound oba ouint omac oaddr oint s2b List.length]. lia.
+  - (* LLC: one of four type names *)
+    unfold llc_type. repeat match goal with |- context [if ?c then _ else _] => destruct c end;
+      apply Nat.leb_le; vm_compute; reflexivity.
+  - (* SNAP: the 3-byte organisation id is printed by ByteArray *)
+    assert (L : (List.length (vsub p 3 3) <= 3)%nat) by (unfold vsub; apply firstn_le_length).
+    cbn [total_bound op_bound oba ouint s2b List.length]. lia.
 Qed.
 
-Lemma view_no_unbounded k p : forallb no_unbounded (flatten (view_ops k p)) = true.
+Lemma view_no_unbounded k p : bounded_kind k = true -> forallb no_unbounded (flatten (view_ops k p)) = true.
 Proof.
-  unfold view_ops. rewrite flatten_ops. destruct k; try reflexivity.
+  intros BK. unfold view_ops. rewrite flatten_ops. destruct k; try discriminate; try reflexivity.
   destruct (N.land (bt p 6) 31 * 256 + bt p 7 =? 0); reflexivity.
 Qed.
 
@@ -363,59 +416,113 @@ Proof.
   apply (fits_of_bound _ idx idx); auto.
   - apply view_ops_ok; exact B.
   - apply view_ops_small; assumption.
-  - apply view_no_unbounded.
+  - apply view_no_unbounded; exact BK.
   - pose proof (view_total_bound k p BK). unfold BUFSZ. lia.
 Qed.
 
-(* every one of the fifteen views, on any valid frame, from any index up to 1600 (String() starts at 7):
-   no call panics and the index stays inside the buffer *)
+(* a bounded prefix of scalar calls, then at most one array over the rest of the frame: the scalars fit,
+   the array keeps itself inside *)
+Lemma prefix_array_total os tail l :
+  Forall op_ok os -> Forall op_small os -> forallb no_unbounded os = true -> (total_bound os <= 400)%nat ->
+  (tail = [] \/ exists a, tail = [a] /\ is_array a = true /\ op_ok a) ->
+  wf l -> (index l <= 1600)%nat ->
+  exists l', run_ops l (os ++ tail) = Ok l' /\ wf l' /\ (index l' <= BUFSZ)%nat.
+Proof.
+  intros OKs SMs NU TB T W Hi. rewrite run_ops_app.
+  assert (F : line_fits (index l) os = true).
+  { apply (fits_of_bound _ (index l) (index l)); auto. unfold BUFSZ. lia. }
+  destruct (line_renders os l W ltac:(unfold BUFSZ; lia) OKs F) as (l1 & R1 & (W1 & I1 & _) & S1).
+  rewrite R1. cbn [bind].
+  unfold to_string in S1. destruct (Nat.ltb_spec BUFSZ (index l1)) as [|H1]; [discriminate|].
+  destruct T as [->|(a & -> & A & OKa)].
+  - exists l1. cbn [run_ops]. auto.
+  - cbn [run_ops]. destruct (arrays_inside l1 a A OKa W1 H1) as (l2 & R2 & W2 & H2).
+    rewrite R2. cbn [bind]. exists l2. auto.
+Qed.
+
+(* every view except LLDP *)
+Definition total_kind (k : vkind) : bool := match k with KLLDP => false | _ => true end.
+
+(* on any valid frame, from any index up to 1600 (String() starts at 7): no call panics and the index stays
+   inside the buffer *)
 Theorem view_bytes_total k p l :
+  total_kind k = true ->
   view_valid k p = true -> bytes_ok p -> frame_len_ok p -> wf l -> (index l <= 1600)%nat ->
   exists l', run_vops l (view_ops k p) = Ok l' /\ wf l' /\ (index l' <= BUFSZ)%nat.
 Proof.
-  intros V B FL W Hi. destruct (bounded_kind k) eqn:BK.
+  intros TK V B FL W Hi. destruct (bounded_kind k) eqn:BK.
   - pose proof (view_fits k p (index l) BK V B FL Hi) as F.
     destruct (line_renders _ l W ltac:(unfold BUFSZ; lia) (view_ops_ok k p B) F) as (l' & R & (W' & I' & _) & S).
     exists l'. split; [exact R|]. split; [exact W'|].
     unfold to_string in S. destruct (Nat.ltb_spec BUFSZ (index l')); [discriminate|assumption].
-  - (* scalars that fit, then one ByteArray, which keeps itself inside *)
-    unfold run_vops.
-    assert (E : exists os n v, flatten (view_ops k p) = (os ++ [OByteArr n v])%list /\ bytes_ok v /\
-                               Forall op_ok os /\ Forall op_small os /\ forallb no_unbounded os = true /\
-                               (total_bound os <= 400)%nat).
-    { pose proof (bt_ok p) as Hb. pose proof (w16_ok p) as Hw.
-      unfold view_ops. rewrite flatten_ops. destruct k; try discriminate.
-      - eexists [_; _; _; _; _], _, _. split; [reflexivity|]. split; [apply bytes_ok_skipn; exact B|].
-        split; [repeat constructor; cbn [op_ok ouint ohex16]; try (pose proof (Hb 0%nat B); pose proof (Hb 1%nat B); lia);
-                match goal with |- w16 _ ?i < _ => apply Hw; exact B end|].
-        split; [repeat constructor|]. split; [reflexivity|]. apply Nat.leb_le. vm_compute. reflexivity.
-      - eexists [_; _; _; _; _], _, _. split; [reflexivity|]. split; [apply bytes_ok_skipn; exact B|].
-        split; [repeat constructor; cbn [op_ok ouint ohex16 ohex8];
-                match goal with
-                | |- bt _ ?i < _ => pose proof (Hb i B); lia
-                | |- w16 _ ?i < _ => pose proof (Hw i B); lia
-                end|].
-        split; [repeat constructor|]. split; [reflexivity|]. apply Nat.leb_le. vm_compute. reflexivity. }
-    destruct E as (os & n & v & E & Bv & OKs & SMs & NU & TB). rewrite E, run_ops_app.
-    assert (F : line_fits (index l) os = true).
-    { apply (fits_of_bound _ (index l) (index l)); auto. unfold BUFSZ. lia. }
-    destruct (line_renders os l W ltac:(unfold BUFSZ; lia) OKs F) as (l1 & R1 & (W1 & I1 & _) & S1).
-    rewrite R1. cbn [bind run_ops].
-    unfold to_string in S1. destruct (Nat.ltb_spec BUFSZ (index l1)) as [|H1]; [discriminate|].
-    destruct (arrays_inside l1 (OByteArr n v) eq_refl Bv W1 H1) as (l2 & R2 & W2 & H2).
-    rewrite R2. cbn [bind]. exists l2. auto.
+  - unfold run_vops.
+    pose proof (bt_ok p) as Hb. pose proof (w16_ok p) as Hw.
+    assert (Hok : Forall op_ok (flatten (view_ops k p))) by (apply view_ops_ok; exact B).
+    unfold view_ops in *. rewrite flatten_ops in *.
+    destruct k; try discriminate.
+    + (* ICMPEcho *)
+      apply (prefix_array_total [_; _; _; _; _] [_]); auto.
+      * apply Forall_forall; intros x Hx; rewrite Forall_forall in Hok; apply Hok; cbn [In] in *; tauto.
+      * repeat constructor.
+      * apply Nat.leb_le. vm_compute. reflexivity.
+      * right. eexists. split; [reflexivity|]. split; [reflexivity|]. cbn [op_ok oba]. apply bytes_ok_skipn. exact B.
+    + (* IEEE1905 *)
+      apply (prefix_array_total [_; _; _; _; _] [_]); auto.
+      * apply Forall_forall; intros x Hx; rewrite Forall_forall in Hok; apply Hok; cbn [In] in *; tauto.
+      * repeat constructor.
+      * apply Nat.leb_le. vm_compute. reflexivity.
+      * right. eexists. split; [reflexivity|]. split; [reflexivity|]. cbn [op_ok oba]. apply bytes_ok_skipn. exact B.
+    + (* RRCP: three shapes *)
+      destruct (bt p 0 =? 35).
+      * apply (prefix_array_total [_; _] [_]); auto.
+        -- apply Forall_forall; intros x Hx; rewrite Forall_forall in Hok; apply Hok; cbn [In] in *; tauto.
+        -- repeat constructor.
+        -- assert (L : (List.length (vsub p 1 6) <= 6)%nat) by (unfold vsub; apply firstn_le_length).
+           cbn [total_bound].
+           match goal with |- (op_bound ?a + _ + _ <= _)%nat => set (X := op_bound a);
+             assert (HX : (X <= 60)%nat) by (apply Nat.leb_le; vm_compute; reflexivity) end.
+           cbn [op_bound oba s2b List.length]. lia.
+        -- right. eexists. split; [reflexivity|]. split; [reflexivity|]. cbn [op_ok oba]. apply bytes_ok_skipn. exact B.
+      * destruct (bt p 0 =? 1).
+        -- rewrite <- (app_nil_r [_; _; _]). apply (prefix_array_total [_; _; _] []); auto.
+           ++ repeat constructor.
+           ++ apply Nat.leb_le. vm_compute. reflexivity.
+        -- apply (prefix_array_total [_; _] [_]); auto.
+           ++ apply Forall_forall; intros x Hx; rewrite Forall_forall in Hok; apply Hok; cbn [In] in *; tauto.
+           ++ repeat constructor.
+           ++ apply Nat.leb_le. vm_compute. reflexivity.
+           ++ right. eexists. split; [reflexivity|]. split; [reflexivity|]. cbn [op_ok oba]. exact B.
+    + (* ICMP4Redirect *)
+      apply (prefix_array_total [_; _; _; _; _; _; _] [_]); auto.
+      * apply Forall_forall; intros x Hx; rewrite Forall_forall in Hok; apply Hok; cbn [In] in *; tauto.
+      * repeat constructor.
+      * apply Nat.leb_le. vm_compute. reflexivity.
+      * right. eexists. split; [reflexivity|]. split; [reflexivity|]. cbn [op_ok]. apply redirect_addrs_ok. exact B.
+Qed.
+
+(* LLDP is the exception: its FastLog goes on after a ByteArray that had to be truncated, and the next
+   String call then panics in appendByte.  A valid 1011-byte frame with two 500-byte TLVs and a name TLV: *)
+Definition ex_lldp_big : bytes :=
+  ([3; 244] ++ repeat 65 500 ++ [5; 244] ++ repeat 66 500 ++ [10; 1; 67] ++ [0; 0])%list.
+Lemma lldp_can_panic :
+  view_valid KLLDP ex_lldp_big = true /\ bytes_ok ex_lldp_big /\ frame_len_ok ex_lldp_big /\
+  run_vops (mkLine (repeat 46 BUFSZ) 7) (view_ops KLLDP ex_lldp_big) = Panic /\
+  line_fits 7 (flatten (view_ops KLLDP ex_lldp_big)) = false.
+Proof.
+  split; [vm_compute; reflexivity|]. split; [apply bytes_okb_spec; vm_compute; reflexivity|].
+  split; [unfold frame_len_ok; vm_compute; discriminate|]. split; vm_compute; reflexivity.
 Qed.
 
 (* String() = Logger.Msg("").Struct(p).ToString(): never panics on a valid frame *)
 Theorem view_string_total k p b0 m :
-  view_valid k p = true -> bytes_ok p -> frame_len_ok p -> List.length b0 = BUFSZ ->
+  total_kind k = true -> view_valid k p = true -> bytes_ok p -> frame_len_ok p -> List.length b0 = BUFSZ ->
   exists l0 l' t, msg_line b0 m [] = Ok l0 /\ run_vops l0 (view_ops k p) = Ok l' /\ to_string l' = Ok t.
 Proof.
-  intros V B FL Hb.
+  intros TK V B FL Hb.
   destruct (msg_renders b0 m [] Hb) as (l0 & R0 & W0 & I0 & _).
   { unfold msg_text. rewrite app_nil_r, module7_len. unfold BUFSZ. lia. }
   unfold msg_text in I0. rewrite app_nil_r, module7_len in I0.
-  destruct (view_bytes_total k p l0 V B FL W0 ltac:(lia)) as (l' & R & W' & H').
+  destruct (view_bytes_total k p l0 TK V B FL W0 ltac:(lia)) as (l' & R & W' & H').
   exists l0, l', (text_of l'). split; [exact R0|]. split; [exact R|].
   unfold to_string. destruct (Nat.ltb_spec BUFSZ (index l')); [lia|reflexivity].
 Qed.
